@@ -24,7 +24,7 @@ RULE = ('random: table with key columns k1,k2 (int incl. 2/9/11/100, str, date; 
         'aggregate targets, optional WHERE/HAVING, explicit or implicit GROUP BY, PIVOT BY by names and/or positions. '
         'Non-trivial = >= 2 distinct values in each key, at least one missing combination, and >= 2 remaining columns or '
         'pivot columns not in positions 1,2. Distinct by hash of (statement, table).')
-ASSUMPTIONS = ['pivot key values are non-NULL and mutually comparable (the property defines an ascending order)',
+ASSUMPTIONS = ['values of the second pivot column are non-NULL (their column label is not specified); NULL in the first column orders first',
                'column labels for key values are their str() form']
 
 KEYPOOLS = {
@@ -43,6 +43,8 @@ def pivot_tables(draw):
     vt = [draw(st.sampled_from(['int', 'decimal', 'str', 'date'])) for _ in range(draw(st.integers(1, 2)))]
     n = draw(st.sampled_from([0, 1, 3, 4, 5, 6, 8]))
     rows = []
+    if draw(st.integers(0, 3)) == 0:
+        p1 = p1 + [None]          # a NULL value in the first pivot column orders first and stays NULL
     for i in range(n):
         vals = [draw(st.none() | gen.VALUES[t]) for t in vt]
         rows.append(tuple([i, draw(st.sampled_from(p1)), draw(st.sampled_from(p2))] + vals))
